@@ -305,6 +305,11 @@ pub fn pool_runs(outp: &str, thorough: bool, seed: u64) {
             id += 1;
             one_config(&mut out, id, &format!("{} hard trimer(0.637556,120,1)", g), st, &args, reps, &threads);
         }
+        // same name, same radii, another geometry
+        if let Ok(st) = PackedState::from_group(MolecularShape2::from_trimer(0.637556, 60., 1.), &group(g)) {
+            id += 1;
+            one_config(&mut out, id, &format!("{} hard trimer(0.637556,60,1)", g), st, &args, reps, &threads);
+        }
         if let Ok(st) = PackedState::from_group(LineShape::polygon(5).unwrap(), &group(g)) {
             id += 1;
             one_config(&mut out, id, &format!("{} hard pentagon", g), st, &args, reps, &threads);
